@@ -279,7 +279,15 @@ def job(spec):
     elif kind == "family":
         g = family(rng)
     elif kind == "lane":
-        g = lane_random(rng) if rng.random() < 0.5 else lane_loop(rng)
+        k_ = rng.random()
+        if k_ < 0.4:
+            g = lane_random(rng)
+        elif k_ < 0.8:
+            g = lane_loop(rng)
+        else:
+            from .. import gen3
+            g0 = gen3.gen_nullable_tails(rng, actions=False)
+            g = mk_grammar({nt.name: [[it.sym for it in a.items] for a in nt.alts] for nt in g0.nts}, g0.terms, {"S"})
     else:
         rules = arg
         sk = {n: [[(T(x) if x in ("a", "b") else N(x)) for x in alt] for alt in alts] for n, alts in rules.items()}
